@@ -151,7 +151,7 @@ def check_property(prop, tier="quick", seed=0):
     t0 = time.time()
     spec = registry.PROPS[prop]
     cases = registry.cases_for(prop)
-    known = [k for k in load_known() if k.get("property") == prop and not k.get("fixed")]
+    known = [k for k in load_known() if (k.get("property") == prop or prop in k.get("also", [])) and not k.get("fixed")]
     lines = []
     violations = 0
     known_reported = []
@@ -167,14 +167,20 @@ def check_property(prop, tier="quick", seed=0):
                 bad, what = replay.replay(case, wit)
             except Exception as e:  # noqa: BLE001
                 bad, what = None, "witness replay crashed: %r" % (e,)
-            if bad and any(b == kf["obligation"] or kf["obligation"].startswith(b) or b.startswith(kf["obligation"]) for b in bad):
+            if bad and (kf.get("whole_case") or any(b == kf["obligation"] or kf["obligation"].startswith(b) or b.startswith(kf["obligation"]) for b in bad)):
                 ex.setdefault(kf["obligation"], []).append(kf["region"])
+                if kf.get("whole_case"):
+                    ex["__skip__"] = True
                 # '.only-when' / '.whenever' variants share the region
                 if kf not in known_reported:
                     known_reported.append(kf)
                     lines.append("KNOWN-FINDING: property=%s %s [%s, region %s] witness %s -> %s" % (prop, kf["what"], case.name, kf["region"], json.dumps(kf["witness"]), what))
         excludes.append(ex)
-    units = [(prop, i, tier, seed, excludes[i]) for i in range(len(cases))]
+    skipped = [c.name for c, ex in zip(cases, excludes) if ex.get("__skip__")]
+    keep = [i for i in range(len(cases)) if not excludes[i].get("__skip__")]
+    units = [(prop, i, tier, seed, excludes[i]) for i in keep]
+    all_cases_ = cases
+    cases = [all_cases_[i] for i in keep]
     nproc = min(int(os.environ.get("PYVC_PROCS", "16")), max(1, len(units)))
     if nproc > 1:
         with mp.get_context("fork").Pool(nproc) as pool:
@@ -256,6 +262,7 @@ def check_property(prop, tier="quick", seed=0):
             "explanation": spec["explanation"],
             "functions_under_contract": facts,
             "cases": len(cases),
+            "cases_inside_known_finding_regions": skipped,
             "paths_explored": sum(max([o["paths"] for o in r["obligations"]] or [0]) for r in results),
             "solver_seconds": round(sum(o["seconds"] for o in all_obs), 3),
             "explore_seconds": round(sum(max([o["explore_seconds"] for o in r["obligations"]] or [0]) for r in results), 3),
